@@ -214,6 +214,13 @@ def check(item, tier):
                                                                       'candidates': cands, 'observed': [tabs[0].get(ls), tabs[1].get(ls)]})
                                 return
                             ref[ok[0]][ls][la] = ok[1]
+                            # continue from the tables the learner really holds (they agree with the fold up to the comparison
+                            # tolerance): otherwise a step at which both tables explain the update equally well could be attributed
+                            # to the wrong table and the reference would drift away over a long history
+                            for k in (0, 1):
+                                for ls2, row2 in tabs[k].items():
+                                    if ls2 in ref[k]:
+                                        ref[k][ls2] = {x: float(v) for x, v in dict(row2).items()}
                         else:
                             q = ref[0]
                             row(0, ls), row(0, lns)
